@@ -35,6 +35,14 @@ GAPS = ["", " ", "\t", "\n", " \n\t ", "\n# 7 \"inc/f.h\"\n", "\n#line 12\n", "\
         "\n#pragma omp x y\n", "\n#pragma\n", "\n  #  pragma  pack(1)\n", "\n#line 5 \"c:\\\\w\\\\p.h\"\n"]
 
 
+# what may end a text: every gap, directive lines without their newline, and directive lines with text after
+# the line number / file name / flags
+TAILS = [g for g in GAPS if g] + ["\n#pragma omp x y", "\n#pragma once", "\n#pragma", "\n# 7 \"e.h\"", "\n#line 9",
+                                  "\n# 3 \"f.c\" 1 @\n", "\n# 3 \"f.c\" x\n", "\n# 3 \"f.c\" 1 2 \"g\"\n",
+                                  "\n#line 3 \"f.c\" /* c */\n", "\n# 3 \"f.c\" #define X\n", "\n# 3 @\n",
+                                  "\n# 3 \"f.c\" 1.5\n", "\n#line 3 \"f.c\" )\n"]
+
+
 def _cmp(exp):
     got = lex_trace(exp["text"], "f.c", TYPES)
     d = compare_with_spec(exp, got)
@@ -103,6 +111,9 @@ def run(tier):
     sub = rnd.sample(VOCAB, 10 if tier == "quick" else 30)
     g2 = rnd.sample(GAPS, 4 if tier == "quick" else 8)
     run_shape(ctx, "tok gap tok gap tok (sampled vocabulary)", [sub, g2, sub, g2, sub])
+    tv = VOCAB if tier == "thorough" else rnd.sample(VOCAB, 25) + ["x", ";"]
+    run_shape(ctx, "token tail (text ends in a gap or directive, with and without newline)", [tv, TAILS])
+    run_shape(ctx, "token tail token", [["x", ";", "42"], TAILS, ["y", "}", "tt"]])
     from . import lextrace
     lextrace.validate_corpus(ctx, tier)
     ctx.cov["exhaustive"] = True
